@@ -1,4 +1,5 @@
 import SamplyModel.Lemmas.LibMappings
+import SamplyModel.Lemmas.ProfileThreads
 /-!
 # C11 — library mapping tables never overlap and resolve to the newest live mapping
 
@@ -189,6 +190,167 @@ theorem C11_kernel_first (kernel proc proc' : Map) (a rel v : Nat)
     processConvert kernel proc a = processConvert kernel proc' a := by
   simp [processConvert, h]
 
+/-- Profile level with the guard only where it matters: non-empty ranges everywhere, and the relative address of the
+address *this frame looks up* fits in 32 bits (`frameFits`, the set of frames the judge evaluates). Mappings that
+violate the 32-bit guard elsewhere do not disturb the resolution of any other address. -/
+theorem C11_profile_order_pointwise (ops : List POp) (hne : ∀ op ∈ ops, POpNonEmpty op) (p : Nat) (fa : FrameAddr)
+    (hfit : frameFits ops p fa) :
+    resolveFrame (prun ops).kernel.map ((prun ops).procs p).map fa = frameSpec ops p fa :=
+  resolveFrame_pointwise ops hne p fa hfit
+
+/-! ### Handle layer: frames are created for a *thread*; processes and threads are created dynamically
+
+`LM.trun` runs a history of `add_process` / `add_thread` / mapping calls / frame creations on the `Vec`-indexed state
+of `Profile`. `LM.threadOwner ops t` is the process passed to the `t`-th `add_thread` call of the history,
+`LM.mappingOps ops` the mapping calls, `LM.HandlesValid ops` says every handle passed to a call was returned by an
+earlier one (always true for handles of one `Profile`; the public API offers no other way to get one). -/
+
+/-- Both frame functions — `handle_for_frame_with_address` and `handle_for_frame_with_address_and_symbol` (with a
+native symbol of the same thread) — resolve a frame of thread `t` through the kernel history first and then through
+the mapping history of the process that `t` was created in: not of the process with the same index, not of any
+other process. All six `FrameAddress` variants; absolute return addresses one byte earlier; relative variants
+ignore the tables. Hypotheses: valid handles, non-empty ranges, 32-bit guard at the looked-up address only. -/
+theorem C11_thread_frames (ops : List TOp) (hv : HandlesValid ops)
+    (hne : ∀ op ∈ mappingOps ops, POpNonEmpty op) (t p : Nat) (fa : FrameAddrX)
+    (hown : threadOwner ops t = some p) (hfit : frameFitsX (mappingOps ops) p fa) :
+    (tstep (trun ops) (.frame t fa)).2 = .res (frameSpecX (mappingOps ops) p fa) ∧
+    (tstep (trun ops) (.frameSym t t fa)).2 = .res (frameSpecX (mappingOps ops) p fa) := by
+  have hout := frameOut_trun ops hv t p fa hown
+  have hres : resolveFrameX (prun (mappingOps ops)).kernel.map ((prun (mappingOps ops)).procs p).map fa
+      = frameSpecX (mappingOps ops) p fa := by
+    cases fa with
+    | abs a => exact resolveFrame_pointwise (mappingOps ops) hne p a hfit
+    | relIp v r => rfl
+    | relAra v r => rfl
+    | relRa v r =>
+      simp only [resolveFrameX, frameSpecX]
+      split
+      · subst_vars; rfl
+      · rfl
+  have hlt : t < (trun ops).threads.length := by
+    have hth : (trun ops).threads[t]? = some p := by rw [(trun_inv ops hv).threads]; exact hown
+    exact (List.getElem?_eq_some_iff.mp hth).1
+  refine ⟨by simp only [tstep, hout, hres], ?_⟩
+  have h1 : ¬ (trun ops).threads.length ≤ t := by omega
+  simp only [tstep, h1, if_false, ne_eq, not_true_eq_false, hout, hres]
+
+/-- The same under the statement's global guard (every mapping keeps its relative addresses within 32 bits). -/
+theorem C11_thread_order (ops : List TOp) (hv : HandlesValid ops)
+    (hok : ∀ op ∈ mappingOps ops, POpOk op) (t p : Nat) (fa : FrameAddr)
+    (hown : threadOwner ops t = some p) :
+    (tstep (trun ops) (.frame t (.abs fa))).2 = .res (frameSpec (mappingOps ops) p fa) ∧
+    (tstep (trun ops) (.frameSym t t (.abs fa))).2 = .res (frameSpec (mappingOps ops) p fa) :=
+  C11_thread_frames ops hv (fun o ho => POpNonEmpty_of_ok o (hok o ho)) t p (.abs fa) hown
+    (frameFits_of_ok (mappingOps ops) hok p fa)
+
+/-- Handles: after any history with valid handles, `add_process` returns the number of earlier `add_process`
+calls, `add_thread` returns the number of earlier `add_thread` calls (so thread handle `t` is owned by the process
+passed to the `t`-th call — `threadOwner`), and no mapping call with a non-empty range panics: none of the `Vec`
+indexings `self.processes[h.0]` can fail. -/
+theorem C11_handles (pre : List TOp) (op : TOp) (hv : HandlesValid (pre ++ [op])) :
+    (op = .newProc → (tstep (trun pre) op).2 = .handle (procCount pre)) ∧
+    (∀ p, op = .newThread p → (tstep (trun pre) op).2 = .handle (owners pre).length ∧
+      threadOwner (pre ++ [op]) (owners pre).length = some p) ∧
+    (∀ pop, op.toPOp = some pop → POpNonEmpty pop → (tstep (trun pre) op).2 = .ok) := by
+  have inv := trun_inv pre (HandlesValid_prefix pre [op] hv)
+  have hh : handlesOk pre op = true := hv pre op [] rfl
+  have onp : ∀ (p : Nat) (o : Op), p < procCount pre → OpOk o → (onProc (trun pre) p o).2 = .ok := by
+    intro p o hp hok
+    have hlen : p < (trun pre).procs.length := by rw [inv.nproc]; exact hp
+    simp only [onProc, List.getElem?_eq_getElem hlen, C11_no_panic _ o hok, if_true]
+  refine ⟨?_, ?_, ?_⟩
+  · intro h; subst h; simp only [tstep, inv.nproc]
+  · intro p h; subst h
+    simp only [handlesOk, decide_eq_true_eq] at hh
+    have hlen : p < (trun pre).procs.length := by rw [inv.nproc]; exact hh
+    refine ⟨by simp only [tstep, hlen, if_true, inv.threads], ?_⟩
+    simp [threadOwner, owners_snoc]
+  · intro pop hp hne
+    cases op with
+    | kadd x =>
+      simp only [TOp.toPOp, Option.some.injEq] at hp; subst hp
+      simp only [tstep, C11_no_panic _ (.add x) hne, if_true]
+    | kremove s => rfl
+    | padd p x =>
+      simp only [TOp.toPOp, Option.some.injEq] at hp; subst hp
+      simp only [handlesOk, decide_eq_true_eq] at hh
+      exact onp p (.add x) hh hne
+    | premove p s =>
+      simp only [handlesOk, decide_eq_true_eq] at hh
+      exact onp p (.remove s) hh trivial
+    | pclear p =>
+      simp only [handlesOk, decide_eq_true_eq] at hh
+      exact onp p .clear hh trivial
+    | newProc => simp [TOp.toPOp] at hp
+    | newThread p => simp [TOp.toPOp] at hp
+    | frame t fa => simp [TOp.toPOp] at hp
+    | frameSym t nt fa => simp [TOp.toPOp] at hp
+
+/-- The profile's own tables after any history with valid handles: the kernel table is the table model run on the
+kernel calls, there is one table per `add_process` call, and process `p`'s table is the table model run on the calls
+addressed to `p` — so `C11_live`, `C11_nonoverlap`, `C11_refines` (statements about `run`) hold for the kernel table
+and for every process table of the profile, including processes created late and processes without threads. -/
+theorem C11_thread_tables (ops : List TOp) (hv : HandlesValid ops) :
+    (trun ops).kernel = run (kernelOps (mappingOps ops)) ∧
+    (trun ops).procs.length = procCount ops ∧
+    ∀ p, p < procCount ops → (trun ops).procs[p]? = some (run (procOps p (mappingOps ops))) := by
+  have inv := trun_inv ops hv
+  refine ⟨by rw [inv.kernel, prun_kernel], inv.nproc, ?_⟩
+  intro p hp
+  have hlen : p < (trun ops).procs.length := by rw [inv.nproc]; exact hp
+  have hget : (trun ops).procs[p]? = some (trun ops).procs[p] := List.getElem?_eq_getElem hlen
+  rw [hget, inv.procs p _ hget, prun_proc]
+
+/-- The statement's first two clauses for the tables *inside the profile*: after any history of public calls with
+valid handles and non-empty ranges, the kernel table and every process's table hold exactly the mappings that are
+live in their own call history (added, and not ended since by a clear of that process, a remove of its start there,
+or an intersecting add there — calls addressed to other processes or to the kernel table never end it), and no two
+mappings stored in one table overlap. -/
+theorem C11_profile_tables_live (ops : List TOp) (hv : HandlesValid ops)
+    (hne : ∀ op ∈ mappingOps ops, POpNonEmpty op) :
+    ((∀ m, m ∈ (trun ops).kernel.map ↔ ∃ pre post, LiveAt (kernelOps (mappingOps ops)) pre post m) ∧
+      ∀ m ∈ (trun ops).kernel.map, ∀ n ∈ (trun ops).kernel.map, m ≠ n → m.e ≤ n.s ∨ n.e ≤ m.s) ∧
+    ∀ p tb, (trun ops).procs[p]? = some tb →
+      (∀ m, m ∈ tb.map ↔ ∃ pre post, LiveAt (procOps p (mappingOps ops)) pre post m) ∧
+      ∀ m ∈ tb.map, ∀ n ∈ tb.map, m ≠ n → m.e ≤ n.s ∨ n.e ≤ m.s := by
+  obtain ⟨hk, hn, hp⟩ := C11_thread_tables ops hv
+  have hkok := kernelOps_nonempty (mappingOps ops) hne
+  refine ⟨?_, ?_⟩
+  · rw [hk]
+    exact ⟨C11_live _ hkok, (C11_nonoverlap _ hkok).2⟩
+  · intro p tb htb
+    have hlt : p < procCount ops := by
+      rw [← hn]; exact (List.getElem?_eq_some_iff.mp htb).1
+    have := hp p hlt
+    rw [htb] at this
+    simp only [Option.some.injEq] at this
+    subst this
+    have hpok := procOps_nonempty p (mappingOps ops) hne
+    exact ⟨C11_live _ hpok, (C11_nonoverlap _ hpok).2⟩
+
+/-- A thread's owner never changes: later calls of any kind leave `threadOwner` of an existing handle alone. -/
+theorem C11_owner_stable (ops more : List TOp) (t p : Nat) (h : threadOwner ops t = some p) :
+    threadOwner (ops ++ more) t = some p := by
+  simp only [threadOwner, owners_append] at h ⊢
+  rw [List.getElem?_append_left (List.getElem?_eq_some_iff.mp h).1]; exact h
+
+/-- Excluded point made explicit (handles of another `Profile`): in any state a thread handle that was never handed
+out, a native symbol of a different thread, or a process handle that was never handed out make the call panic, and
+the panic leaves the mapping tables untouched. -/
+theorem C11_invalid_handle_panics (st : TState) (t nt p : Nat) (fa : FrameAddrX) (o : Op) :
+    (st.threads.length ≤ t → tstep st (.frame t fa) = (st, .panic)) ∧
+    (nt ≠ t → tstep st (.frameSym t nt fa) = (st, .panic)) ∧
+    (st.procs.length ≤ p → onProc st p o = (st, .panic)) := by
+  refine ⟨?_, ?_, ?_⟩
+  · intro h
+    simp only [tstep, frameOut, List.getElem?_eq_none h]
+  · intro h
+    by_cases h1 : st.threads.length ≤ nt
+    · simp only [tstep, h1, if_true]
+    · simp only [tstep, h1, if_false, ne_eq, h, not_false_eq_true, if_true]
+  · intro h
+    simp only [onProc, List.getElem?_eq_none h]
+
 /-! ### Non-vacuity: nested, partially overlapping, adjacent and identical ranges, removal, clear, re-adding -/
 
 /-- the scenario of the repository's own unit test `test_lib_mappings` -/
@@ -242,3 +404,24 @@ example : frameSpec C11_profileOps 0 (.ip 1550) = .inLib 66 2
     ∧ frameSpec C11_profileOps 0 (.ara 1000) = .inLib 0 1
     ∧ frameSpec C11_profileOps 1 (.ip 1300) = .unknown 1300
     ∧ frameSpec C11_profileOps 1 (.ip 1100) = .inLib 100 3 := by decide
+
+/-- handle layer: two processes; thread 0 is created in process 1, threads 1 and 2 in process 0 (thread index ≠
+process index); a kernel mapping shadows; both frame functions agree; relative variants ignore the tables -/
+def C11_threadOps : List TOp :=
+  [.newProc, .newProc, .newThread 1, .newThread 0, .padd 0 ⟨1000, 2000, 0, 1⟩, .newThread 0,
+   .padd 1 ⟨1000, 1200, 7, 3⟩, .kadd ⟨1500, 1600, 16, 2⟩]
+
+example : HandlesValid C11_threadOps := HandlesValid_of_B _ (by decide)
+example : ∀ op ∈ mappingOps C11_threadOps, POpOk op := by decide
+example : threadOwner C11_threadOps 0 = some 1 ∧ threadOwner C11_threadOps 1 = some 0
+    ∧ threadOwner C11_threadOps 2 = some 0 ∧ threadOwner C11_threadOps 3 = none := by decide
+example : (tstep (trun C11_threadOps) (.frame 0 (.abs (.ip 1100)))).2 = .res (.inLib 107 3)
+    ∧ (tstep (trun C11_threadOps) (.frame 1 (.abs (.ip 1100)))).2 = .res (.inLib 100 1)
+    ∧ (tstep (trun C11_threadOps) (.frameSym 2 2 (.abs (.ra 1201)))).2 = .res (.inLib 200 1)
+    ∧ (tstep (trun C11_threadOps) (.frame 0 (.abs (.ra 1201)))).2 = .res (.unknown 1200)
+    ∧ (tstep (trun C11_threadOps) (.frameSym 0 0 (.abs (.ip 1550)))).2 = .res (.inLib 66 2)
+    ∧ (tstep (trun C11_threadOps) (.frame 1 (.relRa 9 0))).2 = .res (.inLib 0 9)
+    ∧ (tstep (trun C11_threadOps) (.frame 1 (.relRa 9 5))).2 = .res (.inLib 4 9)
+    ∧ (tstep (trun C11_threadOps) (.frameSym 1 2 (.abs (.ip 1100)))).2 = .panic
+    ∧ (tstep (trun C11_threadOps) (.frame 3 (.abs (.ip 1100)))).2 = .panic
+    ∧ (tstep (trun C11_threadOps) (.padd 2 ⟨0, 1, 0, 0⟩)).2 = .panic := by decide
